@@ -11,7 +11,7 @@ From RU Require Import Base.Prelude Base.Utf8 Model.AsciiSet Gen.Tables Model.Pe
 From RU Require Base.U32_c13 Base.Outcome_c15 Model.Punycode Model.FormUrlencoded Model.Base64 Model.Mime
   Model.Host Model.Setters Model.Uts46 Model.FilePath Model.Origin.
 From RU Require Proofs.C04_Inventory Proofs.C04_Cost Proofs.C04_CostPath Proofs.C04_Parse Proofs.C04_PathTotal
-  Proofs.C04_ParseTotal Proofs.C06_List Proofs.C04_Utf8
+  Proofs.C04_ParseTotal Proofs.C04_PathFile Proofs.C04_ParseFile Proofs.C06_List Proofs.C04_Utf8
   Proofs.C04_NoPanic Proofs.C04_Puny Proofs.C13_Known Proofs.C15_Main Proofs.C15_Ser Proofs.C09_Reject
   Proofs.C06_Main Proofs.C03_WF Proofs.C02_PathL1 Proofs.Idna_Api Proofs.Idna_Hyp Proofs.Idna_Known.
 From RU Require Properties.C03 Properties.C06 Properties.C09 Properties.C10 Properties.C11 Properties.C13
@@ -341,6 +341,47 @@ Check C04_path_state_total : forall dbg st ps k, st_is_file st = false -> k <= p
                  /\ C06_List.agree_pre k ser s' /\ C04_PathTotal.rem_ok rem.
 Print Assumptions C04_path_state_total.
 
+(* the file class, narrowed (Proofs/C04_PathFile.v, C04_ParseFile.v): known_c04_7b is the part of
+   known_c04_7 in which there is a file base, the reference (after its optional "file:") starts with a
+   path segment - not '/', '\', '?', '#', not a drive letter - and shorten_path leaves a base text that
+   does not end in '/' (it refuses to remove a drive-letter-shaped last segment, or the base path is
+   empty, or it panics on a cannot-be-a-base record): there the first segment starts behind a byte that is
+   not '/' and a ".." fails the debug assertion (F-C04-7).  Everywhere else - file URLs without base, file
+   host state, one leading separator with the base's drive letter or host, '?', '#', drive-letter
+   references, and path-relative references against a base whose shortened path ends in '/' - parse_url
+   reaches no panic site.  The drive-letter quirks are covered: the loop arm that moves segment_start into
+   "C:/" (state bad_seg), the rewriting of "C|" into "C:", the refusals of pop_path / shorten_path.
+   GAP: inside known_c04_7b nothing is proved (the recogniser does not look at the first segment, so it
+   also contains harmless inputs such as "x" against file:///C:). *)
+Theorem C04_parse_no_panic_partial3 : forall dbg hp hpo hd ovr base input,
+  (match base with Some b => C04_ParseTotal.base_ok b = true | None => True end) ->
+  C04_ParseFile.known_c04_7b base input = false ->
+  parse_url dbg hp hpo hd ovr base input <> PPanic.
+Proof. exact C04_ParseFile.parse_url_ok3. Qed.
+Check C04_parse_no_panic_partial3 : forall dbg hp hpo hd ovr base input,
+  (match base with Some b => C04_ParseTotal.base_ok b = true | None => True end) ->
+  C04_ParseFile.known_c04_7b base input = false ->
+  parse_url dbg hp hpo hd ovr base input <> PPanic.
+Print Assumptions C04_parse_no_panic_partial3.
+
+(* known_c04_7b is a sub-class of known_c04_7 (so partial3 implies partial2), and the path state is total
+   for ANY scheme type from the two kinds of states seg_inv / bad_seg *)
+Theorem C04_known_7b_narrower : forall base input,
+  C04_ParseFile.known_c04_7b base input = true -> known_c04_7 base input = true.
+Proof. exact C04_ParseFile.known_7b_file_involved. Qed.
+Check C04_known_7b_narrower : forall base input,
+  C04_ParseFile.known_c04_7b base input = true -> known_c04_7 base input = true.
+Print Assumptions C04_known_7b_narrower.
+
+Theorem C04_path_state_total_any : forall dbg st ps k, k <= ps + 1 ->
+  forall l ser ss pend hh, C04_PathFile.path_inv ps k ser ss ->
+  C04_PathFile.path_res st ps k ser (parse_path_loop dbg CUrlParser st ps l ser ss pend hh).
+Proof. exact C04_PathFile.loop_any. Qed.
+Check C04_path_state_total_any : forall dbg st ps k, k <= ps + 1 ->
+  forall l ser ss pend hh, C04_PathFile.path_inv ps k ser ss ->
+  C04_PathFile.path_res st ps k ser (parse_path_loop dbg CUrlParser st ps l ser ss pend hh).
+Print Assumptions C04_path_state_total_any.
+
 (* finding F-C04-7: a file: base whose last segment looks like a drive letter, joined with "../x":
    the debug assertion of the path state fails (PPanic with debug assertions, a URL without) *)
 Definition toy_hp (s : list N) : result host := Ok (HDomain s).
@@ -604,4 +645,23 @@ Proof.
   split; [exists (mkUrl [104;116;116;112;58;47;47;104;47;97;47;98;63;113] 4 7 7 8 HI_Domain None 8 (Some 12) None);
           vm_compute; repeat split; reflexivity|].
   split; [vm_compute; reflexivity|]. unfold C04_PathTotal.seg_inv. vm_compute. repeat split; try discriminate; reflexivity.
+Qed.
+
+(* C04_parse_no_panic_partial3: a parsed file base joined with "../x" is outside known_c04_7b (and parses);
+   the base of finding F-C04-7 joined with the same reference is inside; the same text parsed without a
+   base is outside *)
+Example C04_partial3_premises_hold :
+  let fb := mkUrl [102;105;108;101;58;47;47;47;97;47;98] 4 7 7 7 HI_None None 7 None None in
+  let b7 := mkUrl w_c04_7_base 4 7 7 7 HI_None None 7 None None in
+  parse_url true toy_hp toy_hp toy_hd None None [102;105;108;101;58;47;47;47;97;47;98] = POk fb
+  /\ C04_ParseTotal.base_ok fb = true /\ C04_ParseFile.known_c04_7b (Some fb) w_c04_7_ref = false
+  /\ parse_url true toy_hp toy_hp toy_hd None (Some fb) w_c04_7_ref
+     = POk (mkUrl [102;105;108;101;58;47;47;47;120] 4 7 7 7 HI_None None 7 None None)
+  /\ C04_ParseTotal.base_ok b7 = true /\ C04_ParseFile.known_c04_7b (Some b7) w_c04_7_ref = true
+  /\ C04_ParseFile.known_c04_7b None (w_c04_7_base ++ [47] ++ w_c04_7_ref) = false
+  /\ C04_PathFile.path_inv 7 7 [102;105;108;101;58;47;47;47;67;58;47;120] 9.
+Proof.
+  cbv zeta. repeat (split; [vm_compute; reflexivity|]).
+  right. unfold C04_PathFile.bad_seg. split; [lia|]. split; [lia|]. split; [vm_compute; discriminate|].
+  exists 58. repeat split; try discriminate; reflexivity.
 Qed.
